@@ -4,16 +4,22 @@ import Driver.OpsBattery
 import Driver.OpsFail
 import Driver.OpsAcct
 import Driver.OpsProf
+import Driver.OpsEV
 
 namespace Driver
 
 structure DState where
   bat : Option BatCtx := none
   acct : List Relsad.BusAcc := []
+  ev : Option EVCtx := none
 
 def step (st : DState) (line : String) : DState × String :=
   match line.splitOn " " with
   | "time" :: args => (st, (opsTime args).getD "bad-op")
+  | "ev" :: args =>
+      match opsEV st.ev args with
+      | some (b, out) => ({ st with ev := b }, out)
+      | none => (st, "bad-op")
   | "prof" :: args => (st, (opsProf args).getD "bad-op")
   | "acct" :: args =>
       match opsAcct st.acct args with
